@@ -231,6 +231,44 @@ def product_partial_evaluation(S):
         S.forall("membership-accepts-points-of-the-slice", res, lambda q: z3.Implies(z3.And(zreal(XY.val.at([q[0], (2,)])) == y0, A.in_pred([zreal(XY.val.at([q[0], (c,)])) for c in range(2)], [y0, zreal(Tt.val.at([q[0], ()]))]), B.in_pred([y0], [zreal(Tt.val.at([q[0], ()]))])), res.at(q)))
 
 
+@scenario("C17", [ops.UNION + ".__init__", ops.CUT + ".__init__", ops.INTER + ".__init__", ops.PROD + ".__init__", ops.TRANS + ".__init__", ops.ROT + ".__init__"], configs=["union", "cut", "intersection", "product", "translate", "rotate"], bounded=BOUND)
+def building_a_composite_leaves_the_free_variables_of_its_operands_unchanged(S):
+    """dependency bookkeeping: the composite's necessary_variables is the union of the free variables of its parts, and
+    constructing it does NOT change the operands' own sets (an operand that is constant in t stays constant in t, also
+    after the composite was partially evaluated) -- later products, motions and samplers branch on these sets"""
+    sp = S.new(R2, "x")
+    A = abstract_domain(S, "A", sp)  # constant
+    kind = S.cfg
+    before_a = set(S.getattr(A.obj, "necessary_variables"))
+    before_abd = set(S.getattr(A.boundary.obj, "necessary_variables"))
+    S.ensure("operand-a-is-constant", before_a == set())
+    if kind in ("union", "cut", "intersection"):
+        B = abstract_domain(S, "B", sp, {"t": 1})
+        dom = S.new({"union": ops.UNION, "cut": ops.CUT, "intersection": ops.INTER}[kind], A.obj, B.obj)
+        want = {"t"}
+        others = [(B, {"t"})]
+    elif kind == "product":
+        B = abstract_domain(S, "B", S.new(R1, "y"), {"t": 1})
+        dom = S.new(ops.PROD, A.obj, B.obj)
+        want = {"t"}
+        others = [(B, {"t"})]
+    elif kind == "translate":
+        dom = S.new(ops.TRANS, A.obj, RowFn("tau", ["t"], 2, {"t": 1}))
+        want, others = {"t"}, []
+    else:
+        dom = S.call(S.getattr(S.find(ops.ROT), "from_angles"), A.obj, RowFn("angle", ["t"], 1, {"t": 1}))
+        want, others = {"t"}, []
+    S.ensure("composite-needs-the-union-of-the-free-variables", set(S.getattr(dom, "necessary_variables")) == want)
+    S.ensure("operand-a-still-constant", set(S.getattr(A.obj, "necessary_variables")) == before_a)
+    S.ensure("boundary-of-operand-a-still-constant", set(S.getattr(A.boundary.obj, "necessary_variables")) == before_abd)
+    for (O, w) in others:
+        S.ensure("other-operand-unchanged", set(S.getattr(O.obj, "necessary_variables")) == w)
+    T0 = S.tensor("T0", [1, 1])
+    d2 = S.call(dom, t=T0)
+    S.ensure("evaluated-composite-has-no-free-variables", set(S.getattr(d2, "necessary_variables")) == set())
+    S.ensure("operand-a-still-constant-after-the-evaluation", set(S.getattr(A.obj, "necessary_variables")) == before_a and set(S.getattr(dom, "necessary_variables")) == want)
+
+
 @scenario("C17", [ops.PROD + ".__call__", ops.PROD + "._create_point_data"], configs=["keywords-in-reverse-space-order"], bounded=BOUND)
 def product_fixing_a_factor_with_two_variables_binds_the_values_by_name(S):
     """(A over p, q) x (B over y), evaluated at q = Q0, p = P0 with the keywords NOT in the order of the factor's space
